@@ -288,7 +288,7 @@ Section Par2Converge.
       assert (Hs1 : io_sched s1 = []) by congruence.
       assert (Hl' : forall p', In p' r -> fs_lookup (io_fs s2) p' = fs_lookup (io_fs s1) p').
       { intros p' Hin. rewrite Hf2', Pf. apply Hl. right. exact Hin. }
-      destruct (read_file md5 (Some (d_setid d)) b) as [| |sid f].
+      destruct (read_file_vol md5 (d_setid d) b) as [| |sid f].
       + discriminate H.
       + exact (IH _ _ _ _ _ Hs1 Hs2' Hl' H).
       + lazymatch type of H with (if ?c then _ else _) = _ => destruct c end; [discriminate H|].
